@@ -117,6 +117,36 @@ def alignment_table(ctx):
     ctx.note('alignment_table', {'type_codes': 17, 'offsets': 16, 'byte_orders': 2, 'exhaustive': True})
 
 
+# Python strings that are not Unicode text (lone surrogates - what os.fsdecode() makes of a non-UTF-8 file name): they
+# have no encoding as a DBus STRING.  Refusing them is what the unchanged code does and is not judged; but whatever
+# bytes ARE produced for one must still be an encoding the specification defines (valid UTF-8 in a STRING).
+NOT_TEXT = ['caf\udce9.txt', '\udc80', 'x\udcff', '\ud800', 'a\udfffb', '\udbff\udbff', 'ok\udc80\udc81ok']
+NOT_TEXT_SHAPES = [('s', lambda t: [t]), ('as', lambda t: [['fine', t]]), ('v', lambda t: [t]), ('(ys)', lambda t: [[1, t]]),
+                   ('a{ss}', lambda t: [{t: 'v'}]), ('a{sv}', lambda t: [{'k': t}]), ('av', lambda t: [[1, t]]),
+                   ('(s(sas))', lambda t: [['a', ['b', [t]]]])]
+
+
+def unrepresentable_text(ctx):
+    for t in NOT_TEXT:
+        for sig, mk in NOT_TEXT_SHAPES:
+            for little in (True, False):
+                for off in (0, 3):
+                    case = {'stream': 'not-text', 'sig': sig, 'text': t.encode('utf-8', 'surrogatepass').hex()}
+                    ctx.count('evaluations')
+                    try:
+                        n, chunks = M.marshal(sig, mk(t), off, little)
+                    except Exception:
+                        ctx.count('not_text_refused')
+                        continue
+                    data = b''.join(chunks)
+                    ctx.count('not_text_encoded')
+                    try:
+                        R.decode(sig, b'\xEE' * off + data, off, little, strict=True)
+                    except R.CodecError as e:
+                        ctx.report('not-wire-format', 'bytes produced for a %r holding a str that is not Unicode text are not '
+                                   'valid DBus encoding: %s' % (sig, e), dict(case, bytes=data, little=little, offset=off), case)
+
+
 def foreign_case(seed, idx):
     r = CC.case_rng(seed, 'foreign', idx)
     g = gen.Gen(r, max_depth=r.choice([2, 3, 4]), big=(r.random() < 0.1), free_variants=True)
@@ -138,6 +168,7 @@ def run(ctx):
                 'unmarshal; alignment table 17 codes x 16 offsets x 2 orders exhaustive. distinct_nontrivial = distinct '
                 '(direction, alignment-shape, byte order, offset mod 8) with a container')
     alignment_table(ctx)
+    unrepresentable_text(ctx)
     ctx.budget(30 if ctx.tier == 'quick' else 420)
     n = 0
     for idx, sig, combos in CC.enumerated(ctx.tier, ctx.shard):
@@ -198,5 +229,7 @@ def replay(ctx, rp):
     elif st == 'foreign':
         sig, tv, little, off = foreign_case(seed, case['idx'])
         dir_b(ctx, sig, tv, little, off, case)
+    elif st == 'not-text':
+        unrepresentable_text(ctx)
     else:
         alignment_table(ctx)
